@@ -1,3 +1,4 @@
+import Proofs.C08Pins
 import Proofs.C08RoundTrip
 import Proofs.C08Stable
 import GoawkModel.C08Scan
@@ -172,3 +173,16 @@ example : csvRecords { sep := [44], header := true } [0xEF, 0xBB, 0xBF, 104, 10,
     [([[97, 10, 98], [99]], [34, 97, 10, 98, 34, 44, 99]), ([[100]], [100])] := by decide
 
 end GoawkModel.C08.Props
+
+/-! ## Pinned source text (regenerated tie; extract/pins.go, tools/repin.py)
+An edit of one of these functions in /repo breaks the matching obligation: the model below was written from the text
+in `Proofs.C08Pins` and has to be compared with the new text before it is re-pinned. -/
+namespace GoawkModel.Pins.C08
+theorem pin_csvSplitter_scan : Generated.C08Pins.csvSplitter_scan = Expected.csvSplitter_scan := rfl
+theorem pin_writeCSV : Generated.C08Pins.writeCSV = Expected.writeCSV := rfl
+theorem pin_lenNewline : Generated.C08Pins.lenNewline = Expected.lenNewline := rfl
+theorem pin_nextRune : Generated.C08Pins.nextRune = Expected.nextRune := rfl
+theorem pin_setFieldNames : Generated.C08Pins.setFieldNames = Expected.setFieldNames := rfl
+theorem pin_list : Generated.C08Pins.pinned = Expected.pinned := rfl
+end GoawkModel.Pins.C08
+-- end of pinned source text
